@@ -24,6 +24,18 @@ SPECS = {
                + [{"entry": "vh_c06_tagged", "label": "vh_c06_tagged.q.r1.f%d.k%d" % (f, k), "fix": {"rank": 1, "focus": f, "n": 1, "cols": 1, "npositions": 1, "kind#%d" % f: k, "kind#%d" % (1 - f): [1, 3, 4, 0, 1][k]}, "tiers": ["quick"]} for (f, k) in ((0, 1), (1, 3), (0, 0))]
                + [{"entry": e, "label": "%s.r0.k%d.c%d" % (e, k, c), "fix": {"rank": 0, "kind#0": k, "cols": c}, "tiers": ["thorough"]} for e in ("vh_c06_tagged", "vh_c06_feature") for k in range(5) for c in range(3)]
                + [{"entry": e, "label": "%s.r1.f%d.k%d.o%d" % (e, f, k, o), "fix": {"rank": 1, "focus": f, "cols": 1, "kind#%d" % f: k, "kind#%d" % (1 - f): o}, "tiers": ["thorough"]} for e in ("vh_c06_tagged", "vh_c06_feature") for f in range(2) for k in range(5) for o in range(5)]}]},
+ "C17": {
+  "explanation": "K: DataView construction and DataView::transform_coordinates with full 64-bit symbolic counts/offsets against an oracle in unbounded arithmetic (admitted iff offset+count <= window in every dimension; base = origin+offset; rejection = OutOfBounds). S: reads and writes through a view on the HDF5 model touch exactly the requested block at window origin + offset and nothing else; rejected requests transfer nothing. util::dataSlice + fillPositionsExtentsAndUnits + positionToIndex + Dimension::indexOf on arrays of every descriptor kind with 0..rank(+1) start/end entries, symbolic positions, both RangeMatch modes, compared element by element with the documented region (quick tier: arithmetic index kernels replaced by the C07 relation, as in C05).",
+  "bounds": {"quick": {"view": "rank 1..2, array 5 / 3x4, window origin 0..2 size 1..2; requests: any 64-bit value (K) / 0..3 (I/O)", "slice": "rank 1..2, extent 1..2 per axis, 5 descriptor kinds, entries 0..rank+1"},
+             "thorough": {"slice": "extent 1..3 per axis, all kind pairs"}},
+  "outside": ["units (C18)", "rank 3", "symbolic sampling intervals/offsets (C07)"],
+  "assumptions": ["libhdf5 replaced by h5model", "quick tier: contract index kernels (harness/tagging.hpp)"],
+  "harnesses": [{"file": "C17_slice.cpp", "defines": {"quick": ["-DVH_MAXRANK=2", "-DVH_MAXEXT=2", "-DVH_NSAMPLING=2"], "thorough": ["-DVH_MAXRANK=2", "-DVH_MAXEXT=3", "-DVH_NSAMPLING=4"]},
+     "entries": [{"entry": "vh_c17_view_ctor"}, {"entry": "vh_c17_view_coords"}]
+               + [{"entry": "vh_c17_view_io", "label": "vh_c17_view_io.r%d.w%d" % (r, w), "fix": {"rank": r, "write": w}} for r in range(2) for w in range(2)]
+               + [{"entry": "vh_c17_slice", "label": "vh_c17_slice.r0.k%d" % k, "fix": {"rank": 0, "kind#0": k}} for k in range(5)]
+               + [{"entry": "vh_c17_slice", "label": "vh_c17_slice.r1.f%d.k%d" % (f, k), "fix": {"rank": 1, "focus": f, "n": 1, "kind#%d" % f: k, "kind#%d" % (1 - f): [1, 3, 4, 0, 1][k]}, "tiers": ["quick"]} for f in range(2) for k in range(5)]
+               + [{"entry": "vh_c17_slice", "label": "vh_c17_slice.r1.f%d.k%d.o%d" % (f, k, o), "fix": {"rank": 1, "focus": f, "kind#%d" % f: k, "kind#%d" % (1 - f): o}, "tiers": ["thorough"]} for f in range(2) for k in range(5) for o in range(5)]}]},
  "C01": {
   "explanation": "Full stack on the HDF5 model for 10 numeric element types plus Bool and String: bounded histories of hyperslab writes (offset/count inside, touching and crossing the edge), appends along each axis, extent changes (grow/shrink) and sub-region reads with symbolic element values, compared with a dense reference array after every step and after reopen; reads as other numeric types; calibration polynomial/origin in the exact regime (integer-valued doubles) with raw reads unaffected; kernel checks of applyPolynomial (arbitrary doubles, order-independent facts) and guessChunking.",
   "bounds": {"quick": {"history_steps": 2, "rank": "1..2", "extent": "<= 3 per axis (4 after append)", "values": "symbolic, full range of the type", "polynomial": "degree <= 2, |coef| < 1024, |x|,|origin| < 256"},
